@@ -234,6 +234,40 @@ func c17Pack(c *eng.Ctx, r *eng.Report) {
 				}
 			}
 		}
+		// …and that test stands on every path to a non-empty return, not only on one fork-gate branch
+		if ok {
+			var limIf *ssa.If
+			for _, b := range pf.Blocks {
+				if iff, isI := b.Instrs[len(b.Instrs)-1].(*ssa.If); isI {
+					if m, isM := eng.DecodeCmp(iff.Cond); isM && m.Op == token.GTR && strings.Contains(eng.Desc(m.X), "builtin:len(") {
+						if kk, isKK := eng.ConstInt(m.Y); isKK && kk == lim {
+							limIf = iff
+						}
+					}
+				}
+			}
+			if limIf == nil {
+				ok = false
+			} else {
+				for _, re := range eng.Returns(pf) {
+					if cls := eng.RetClass(re.Ret, 0, re.Pred); cls == "nil" {
+						continue
+					}
+					if !limIf.Block().Dominates(re.Ret.Block()) {
+						// returns before anything was packed (empty pool) are fine: they return a fresh empty slice
+						if _, isMk := eng.RetValue(re.Ret, 0).(*ssa.MakeSlice); isMk {
+							continue
+						}
+						if sl, isS := eng.RetValue(re.Ret, 0).(*ssa.Slice); isS {
+							if al, isA := sl.X.(*ssa.Alloc); isA && strings.Contains(al.Comment, "makeslice") {
+								continue // `make([]T, 0)` returned as is: the early "nothing pending" exit
+							}
+						}
+						ok = false
+					}
+				}
+			}
+		}
 		r.Check(ok, rule, "(*service.TxPool).PackForCast:limit", c.Pos(pf.Pos()), fmt.Sprintf("a batch longer than txCountPerBlock (%d) is truncated to it", lim), "PackForCast no longer truncates the batch to txCountPerBlock")
 	}
 	cn := c.Func("service", "(*TxPool).checkNonce")
@@ -314,7 +348,31 @@ func c17Pack(c *eng.Ctx, r *eng.Report) {
 			}
 		}
 	}
-	r.Check(okB, rule, "(*service.TxPool).checkNonce:limit", c.Pos(cn.Pos()), "the walk stops once the per-block limit is reached", "the nonce walk no longer stops at the per-block limit")
+	// every append in the walk is followed by that test before the next iteration starts
+	if okB {
+		var limIf ssa.Instruction
+		for _, b := range cn.Blocks {
+			if iff, isI := b.Instrs[len(b.Instrs)-1].(*ssa.If); isI {
+				if m, isM := eng.DecodeCmp(iff.Cond); isM && m.Op == token.GEQ && strings.Contains(eng.Desc(m.X), "builtin:len(") {
+					limIf = iff
+				}
+			}
+		}
+		hdr := loopHeaderOf(appendCall)
+		for _, s := range eng.Sites(cn) {
+			call, isC := s.Instr.(*ssa.Call)
+			if !isC || s.Name() != "builtin:append" || loopHeaderOf(call) != hdr || hdr == nil {
+				continue
+			}
+			if !strings.Contains(eng.ShortType(call.Type()), "Transaction") {
+				continue
+			}
+			if limIf == nil || escapesWithout(call, limIf, hdr) {
+				okB = false
+			}
+		}
+	}
+	r.Check(okB, rule, "(*service.TxPool).checkNonce:limit", c.Pos(cn.Pos()), "the walk stops once the per-block limit is reached, after every append", "a transaction can be appended in the nonce walk and the next iteration started without the per-block limit test: a batch can grow past txCountPerBlock")
 }
 
 // loopHeaderOf returns the header of the innermost natural loop containing in (nil if none).
